@@ -251,6 +251,30 @@ func cmdRun(args []string) {
 					fmt.Fprintf(os.Stderr, "HARNESS-TROUBLE: cannot write replay: %v\n", err)
 					os.Exit(2)
 				}
+				// A replay file must reproduce in a fresh process. When it
+				// does not, the failure depends on what earlier runs left
+				// behind in this process: record them as a prefix, and
+				// minimise that.
+				if !reproducesFresh(path, v.Prop) {
+					pv := res.Viol[vi]
+					full := plan.clone()
+					full.Violation = &pv
+					for s0 := *seed; s0 < sd; s0++ {
+						full.Prefix = append(full.Prefix, s0)
+					}
+					full.save(path)
+					if !reproducesFresh(path, v.Prop) {
+						ws.Extra["violations_not_reproducible_in_a_fresh_process"]++
+						fmt.Printf("UNREPRODUCIBLE property=%s invariant=%s seed=%d\n", v.Prop, v.Invariant, sd)
+						os.Remove(path)
+						nSaved--
+						continue
+					}
+					full.Prefix = minimizePrefix(full, path, v.Prop, time.Now().Add(45*time.Second))
+					full.save(path)
+					min, v = full, pv
+					ws.Extra["violations_that_need_earlier_runs_in_the_same_process"]++
+				}
 			}
 			ws.Violations = append(ws.Violations, FoundViolation{Seed: sd, V: v, Replay: path, MinOps: min.opCount()})
 			fmt.Printf("FOUND property=%s invariant=%s seed=%d replay=%s\n", v.Prop, v.Invariant, sd, path)
@@ -322,6 +346,9 @@ func cmdReplay(args []string) {
 	}
 	want := plan.Violation
 	plan.Violation = nil
+	for _, sd := range plan.Prefix {
+		execute(generate(plan.Prop, sd, plan.Tier), execOpts{})
+	}
 	res := execute(plan, execOpts{log: *logEv})
 	if *logEv {
 		fmt.Print(res.Log)
@@ -355,4 +382,41 @@ func cmdReplay(args []string) {
 		os.Exit(3)
 	}
 	fmt.Println("CLEAN")
+}
+
+// reproducesFresh replays a file in a fresh process of this binary.
+func reproducesFresh(path, prop string) bool {
+	exe, err := os.Executable()
+	if err != nil {
+		return true
+	}
+	out, code := runCmd(nil, 180*time.Second, exe, "replay", "-quiet", path)
+	return code == 1 && strings.Contains(out, "VIOLATION property="+prop)
+}
+
+// minimizePrefix: delta debugging on the list of earlier runs.
+func minimizePrefix(p *Plan, path, prop string, deadline time.Time) []int64 {
+	cur := append([]int64{}, p.Prefix...)
+	try := func(cand []int64) bool {
+		if time.Now().After(deadline) {
+			return false
+		}
+		q := p.clone()
+		q.Prefix = cand
+		if q.save(path) != nil {
+			return false
+		}
+		return reproducesFresh(path, prop)
+	}
+	for chunk := len(cur); chunk >= 1; chunk /= 2 {
+		for at := 0; at+chunk <= len(cur); {
+			cand := append(append([]int64{}, cur[:at]...), cur[at+chunk:]...)
+			if try(cand) {
+				cur = cand
+			} else {
+				at += chunk
+			}
+		}
+	}
+	return cur
 }
